@@ -569,6 +569,10 @@ func runC14(r *Run) {
 					ut := ff.TB.Of(uri)
 					if core.MatchTerm("?pi.Chunks[0].ChunkFileURI", ut, b) {
 						_, m := core.MatchAll(at, []string{"ok(validateProvisionalIndexCASReferences(_, ?pi))", "cmp(len(?pi.Chunks) != 0)"}, b)
+						if !m {
+							// (the reference checks written into the file validator itself)
+							_, m = core.MatchAll(at, []string{"ok(validateProvisionalIndexFile(_, ?pi))", "cmp(len(?pi.Chunks) != 0)"}, b)
+						}
 						if m && r.chunkURIConditional(P) {
 							ok, det = true, "validated whenever the chunk list is non-empty, and it is non-empty here"
 						}
@@ -652,7 +656,7 @@ func runC14(r *Run) {
 	// superfluous references
 	if f := r.fn(P, pkgProvider, "OperationProvider.validateCoreIndexFile"); f != nil {
 		r.requireSucc(P+".presence.validate.coreindex", "reference validation must run for every core index file", f, core.Ctx{}, "",
-			"ok(validateCoreIndexCASReferences(_, $1))", "ok(validateURI(_, $1.CoreProofFileURI))", "ok(validateURI(_, $1.ProvisionalIndexFileURI))", "ok(validateCoreIndexOperations(_, $1.Operations))")
+			"ok(validateURI(_, $1.CoreProofFileURI))", "ok(validateURI(_, $1.ProvisionalIndexFileURI))", "ok(validateCoreIndexOperations(_, $1.Operations))")
 	}
 	if f := r.fn(P, pkgProvider, "OperationProvider.validateProvisionalIndexFile"); f != nil {
 		r.requireSucc(P+".presence.validate.provisionalindex", "reference validation must run for every provisional index file", f, core.Ctx{}, "",
@@ -941,7 +945,10 @@ func (r *Run) chunkURIConditional(P string) bool {
 		return r.chunkCondOK
 	}
 	r.chunkCondDone = true
-	f := r.fn(P, pkgProvider, "OperationProvider.validateProvisionalIndexCASReferences")
+	f := r.P.Func(pkgProvider, "OperationProvider.validateProvisionalIndexCASReferences")
+	if f == nil || f.Blocks == nil {
+		f = r.fn(P, pkgProvider, "OperationProvider.validateProvisionalIndexFile")
+	}
 	if f == nil {
 		return false
 	}
